@@ -285,8 +285,11 @@ pub struct Mismatch {
     pub detail: String,
 }
 
+#[derive(Default)]
 pub struct ProbeStats {
     pub reads: u64,
+    /// queries whose expected answer is a non-empty list of entries
+    pub nontrivial: u64,
 }
 
 /// Compares the whole read API of bucket `b` with model `m` over `probes` (the universe of keys).
@@ -438,6 +441,9 @@ pub fn probe_bucket<'b, 'tx>(
                         push("seek_exists", format!("seek({}) returned {} expected {}", show(k), exists, want_exists));
                     }
                     let ge: Vec<_> = model_all.iter().filter(|x| x.0 >= *k).cloned().collect();
+                    if !ge.is_empty() {
+                        stats.nontrivial += 1;
+                    }
                     let pred = model_all.iter().filter(|x| x.0 < *k).last().cloned();
                     let ok = if want_exists {
                         v == ge
@@ -504,6 +510,9 @@ pub fn probe_bucket<'b, 'tx>(
             let hi_b = mk_bound(hi, probes[j].as_slice());
             let want: Vec<_> = model_all.iter().filter(|x| in_range(&x.0, &lo_b, &hi_b)).cloned().collect();
             stats.reads += 1;
+            if !want.is_empty() {
+                stats.nontrivial += 1;
+            }
             let r = guarded(|| {
                 let mut it = b.range((lo_b, hi_b));
                 let mut v = vec![];
